@@ -492,6 +492,9 @@ pub struct Burst {
     pub server: bool,
     pub n: u8,
     pub read_chunk: u8,
+    /// the GPU proxy sends its large payload messages (cursor image 16 KiB, scanout update): several partial writes per message
+    #[serde(default)]
+    pub gpu: bool,
 }
 
 fn set_small_sndbuf(s: &UnixStream) {
@@ -591,6 +594,62 @@ fn slow_read(sock: &UnixStream, chunk: usize, sender_done: &dyn Fn() -> bool, bo
 pub fn run_burst(ctx: &mut Ctx, b: &Burst) -> Result<(), String> {
     let n = b.n.max(1) as usize;
     let chunk = (b.read_chunk as usize % 97) + 1;
+    if b.gpu {
+        use vhost::vhost_user::gpu_message::{VhostUserGpuCursorPos, VhostUserGpuCursorUpdate, VhostUserGpuDMABUFScanout, VhostUserGpuUpdate};
+        use vm_memory::ByteValued;
+        let (ours, theirs) = UnixStream::pair().unwrap();
+        set_small_sndbuf(&theirs);
+        let g = vhost::vhost_user::GpuBackend::from_stream(theirs);
+        let img: Vec<u8> = (0..4 * 64 * 64u32).map(|i| (i * 7 + i / 251) as u8).collect();
+        let data: Vec<u8> = (0..3000u32).map(|i| (i * 11) as u8).collect();
+        let file = memfd(0x1000);
+        let mut expect = Vec::new();
+        let mut starts = Vec::new();
+        for i in 0..n {
+            let id = i as u32;
+            match i % 3 {
+                0 => {
+                    starts.push((expect.len(), 0));
+                    let cu = VhostUserGpuCursorUpdate { pos: VhostUserGpuCursorPos { scanout_id: id, x: 1, y: 2 }, hot_x: 3, hot_y: 4 };
+                    let mut body = cu.as_slice().to_vec();
+                    body.extend_from_slice(&img);
+                    expect.extend_from_slice(&spec::msg(spec::gpu::CURSOR_UPDATE, 0, &body));
+                }
+                1 => {
+                    starts.push((expect.len(), 1));
+                    let dm = VhostUserGpuDMABUFScanout { scanout_id: id, width: 1, height: 1, fd_width: 1, fd_height: 1, ..Default::default() };
+                    expect.extend_from_slice(&spec::msg(spec::gpu::DMABUF_SCANOUT, 0, dm.as_slice()));
+                }
+                _ => {
+                    starts.push((expect.len(), 0));
+                    let up = VhostUserGpuUpdate { scanout_id: id, x: 0, y: 0, width: 30, height: 25 };
+                    let mut body = up.as_slice().to_vec();
+                    body.extend_from_slice(&data);
+                    expect.extend_from_slice(&spec::msg(spec::gpu::UPDATE, 0, &body));
+                }
+            }
+        }
+        let bounds: Vec<usize> = starts.iter().map(|s| s.0).chain([expect.len()]).collect();
+        let (img2, data2) = (img.clone(), data.clone());
+        let h = std::thread::spawn(move || -> Result<(), String> {
+            let mut arr = [0u8; 4 * 64 * 64];
+            arr.copy_from_slice(&img2);
+            for i in 0..n {
+                let id = i as u32;
+                match i % 3 {
+                    0 => g.cursor_update(&VhostUserGpuCursorUpdate { pos: VhostUserGpuCursorPos { scanout_id: id, x: 1, y: 2 }, hot_x: 3, hot_y: 4 }, &arr),
+                    1 => g.set_dmabuf_scanout(&VhostUserGpuDMABUFScanout { scanout_id: id, width: 1, height: 1, fd_width: 1, fd_height: 1, ..Default::default() }, Some(&file)),
+                    _ => g.update_scanout(&VhostUserGpuUpdate { scanout_id: id, x: 0, y: 0, width: 30, height: 25 }, &data2),
+                }
+                .map_err(|e| format!("gpu message #{i}: {e}"))?;
+            }
+            Ok(())
+        });
+        let (all, fdpos, partial) = slow_read(&ours, chunk.max(16) * 8, &|| h.is_finished(), &|q| bounds.contains(&q));
+        let r = h.join().map_err(|_| "sender panicked".to_string())?;
+        ctx.class("burst_gpu_large_payloads");
+        return judge_burst(ctx, b, r, &all, &expect, &fdpos, &starts, partial);
+    }
     if !b.server {
         // Frontend: alternating SET_CONFIG (4084-byte payload) and SET_MEM_TABLE (32 regions + 32 descriptors), no replies awaited
         let (ours, theirs) = UnixStream::pair().unwrap();
@@ -746,7 +805,7 @@ pub fn run(ctx: &mut Ctx) {
                 descriptors), every back-end-initiated request, every reply/ack kind read by Frontend, Backend proxy and GpuBackend. Per message: \
                 all 2-splits, all 3-splits (<= 64 bytes; selected points otherwise), byte-by-byte; each next segment is written only after the \
                 receiver drained the previous one (FIONREAD == 0), so the split is experienced; all cut offsets 0..len followed by a half-close. \
-                Sender: bursts of maximum-size messages on a non-blocking socket with minimal SO_SNDBUF against a reader that waits for the \
+                Sender: bursts of maximum-size messages (Frontend requests, BackendReqHandler replies, and the GPU proxy's 16 KiB / 3 KB payload messages, which need several partial writes each) on a non-blocking socket with minimal SO_SNDBUF against a reader that waits for the \
                 sender to stall and then drains 1..97 bytes per read. Non-trivial = a split point strictly inside header or body, a cut strictly \
                 inside the message, a burst in which a partial write was observed."
         .into();
@@ -805,7 +864,7 @@ pub fn run(ctx: &mut Ctx) {
     });
 
     let nb = ctx.tier.pick(40usize, 600usize);
-    let bursts: Vec<Burst> = (0..nb).map(|i| Burst { server: i % 2 == 1, n: 3 + (i % 6) as u8, read_chunk: ((i * 31 + ctx.seed as usize) % 97) as u8 }).collect();
+    let bursts: Vec<Burst> = (0..nb).map(|i| Burst { server: i % 3 == 1, gpu: i % 3 == 2, n: 3 + (i % 6) as u8, read_chunk: ((i * 31 + ctx.seed as usize) % 97) as u8 }).collect();
     ctx.enumerate("sender_bursts", bursts, |ctx, b| {
         let r = run_burst(ctx, b);
         ctx.sample(|| json!({"burst": b}));
